@@ -78,8 +78,14 @@ json refusal(Rng &r, const std::vector<OptRef> &refs, int cl)
 				continue;
 			s["op"] = "set" + t;
 			s["v"] = typed(r, t);
+			if (t == "str" && r.chance(1, 4))
+				s["v"] = nullptr; // "no string" is a value a validator may refuse like any other
 			s["idx"] = list ? (unsigned)r.below(3) : 0u;
 			s["cb2"] = "veto";
+			{
+				static const int verdicts[] = {1, 1, -1, 2, -100};
+				s["cb2v"] = verdicts[r.below(5)];
+			}
 			s["refusal"] = list ? "veto_on_list" : "veto_on_scalar";
 			return s;
 		case 2: { // wrong type
@@ -113,6 +119,8 @@ json refusal(Rng &r, const std::vector<OptRef> &refs, int cl)
 			}
 			s["refusal"] = "duplicate_title";
 			s["needs_title"] = s["title"];
+			if (ref.decl.contains("sub"))
+				s["subs"] = ref.decl["sub"];
 			return s;
 		case 5: // remove what is not there
 			if (t != "sec")
@@ -271,7 +279,22 @@ json generate(uint64_t seed, uint64_t idx, int tier)
 			json pre = rf;
 			pre.erase("refusal");
 			pre.erase("needs_title");
+			pre.erase("subs");
 			steps.push_back(pre); // creates the title (or is itself refused if it exists: also fine)
+			// ... and the instance gets contents that differ from its defaults: a refused duplicate must not touch them
+			if (rf["at"].empty() && rf.contains("subs"))
+				for (auto &so : rf["subs"]) {
+					std::string t = so["t"].get<std::string>();
+					if (so.value("fl", 0) & F_LIST || so.contains("simple") || so.value("pcb", 0) || (t != "int" && t != "bool" && t != "str"))
+						continue;
+					std::string title;
+					for (unsigned char c : rf["title"].get<std::string>())
+						title += (c == '"' || c == '\\') ? std::string("\\") + (char)c : std::string(1, (char)c);
+					std::string v = t == "int" ? "4711" : t == "bool" ? (so.value("d", false) ? "false" : "true") : "\"changed\"";
+					steps.push_back(parse_step(0, 0, "buf", rf["name"].get<std::string>() + " \"" + title + "\" { " + so["n"].get<std::string>() + " = " + v + " }\n"));
+					break;
+				}
+			rf.erase("subs");
 		}
 		steps.push_back(rf);
 	}
